@@ -23,7 +23,7 @@ for name in sorted(n for n in os.listdir('/verif/seeded') if os.path.isdir('/ver
     meta['detected_by']={'violation_reported_by':[p for p,rc,_ in ds if rc==1],'not_reported_by':missed,'inconclusive':incon,'detail':[f"{p} quick exit={rc} {sorted(set(l for l,_ in labs))[:3]}" for p,rc,labs in ds]}
     json.dump(meta,open(d+'/meta.json','w'),indent=1)
     note=meta.get('status_on_final_tree','')
-    rows.append(f"| {name} | {meta['breaks_property']} | {meta['change']} | {', '.join(caught) or '-'} | {', '.join(missed+incon) or '-'}{' ; '+note[:60]+'…' if note else ''} |")
+    rows.append(f"| {name} | {meta['breaks_property']} | {meta['change']} | {', '.join(caught) or '-'} | {', '.join(missed+[i+' (INCONCLUSIVE, exit 2)' for i in incon]) or '-'}{' ; '+note[:60]+'…' if note else ''} |")
 print("| seed | breaks | change | VIOLATION reported by (assertion) | run but silent |\n|---|---|---|---|---|")
 print("\n".join(rows))
 print()
